@@ -153,7 +153,7 @@ def materialise(case, src, wdir):
     return q, text
 
 
-def run_replica(sdir, reps, stage, e, infile, opts, src, wdir, stats):
+def run_replica(sdir, reps, stage, e, infile, opts, src, wdir, stats, timeout=None):
     out = os.path.join(wdir, "out.bin")
     dep = os.path.join(wdir, "out.d")
     for f in (out, dep):
@@ -178,7 +178,7 @@ def run_replica(sdir, reps, stage, e, infile, opts, src, wdir, stats):
     po = subprocess.Popen(argv, cwd=wdir, env=env_vars(e, sdir, stats), stdin=subprocess.DEVNULL, stdout=subprocess.PIPE, stderr=subprocess.PIPE,
                           start_new_session=True)
     try:
-        so, se = po.communicate(timeout=TIMEOUT)
+        so, se = po.communicate(timeout=timeout or TIMEOUT)
     except subprocess.TimeoutExpired:
         try:
             os.killpg(po.pid, 9)
@@ -223,7 +223,13 @@ def evaluate(case, sdir, reps, src, wdir, stats=None):
     if ra["status"] == "timeout" or rb["status"] == "timeout":
         if ra["status"] == rb["status"]:
             return None, ra, rb, held, text     # both hang the same way: an input problem, not a divergence
-        return ["status"], ra, rb, held, text
+        # one-sided: a loaded machine, or a real divergence (one replica loops)? decide with six times the budget
+        ra = run_replica(sdir, reps, case["a"], case["e1"], infile, case["opts"], src, wdir, None, timeout=6 * TIMEOUT)
+        rb = run_replica(sdir, reps, case["b"], case["e2"], infile, case["opts"], src, wdir, None, timeout=6 * TIMEOUT)
+        if ra["status"] == "timeout" and rb["status"] == "timeout":
+            return None, ra, rb, held, text
+        if ra["status"] == "timeout" or rb["status"] == "timeout":
+            return ["status"], ra, rb, held, text
     d = diff_fields(ra, rb)
     return d, ra, rb, held, text
 
